@@ -56,6 +56,10 @@ for _n in ("lmul_naive", "lmul_kara", "lmul"):
     VARIANTS[_n + ".a"]["model"] = _n
 _add("lmul_naive.alias lmul_naive.alias2", "lmul_naive", "lmul", "2", 2, 1)
 _add("lmul.alias", "lmul", "lmul", "2", 2, 1, flags="naive-only")     # lmul_kara is documented as not alias-safe
+_add("lmul.inplace lmul.inplace2", "lmul", "lmul", "2", 2, 1, flags="w")
+_add("lmul_kara.inplace lmul_kara.inplace2", "lmul_kara", "lmul", "2", 2, 1, flags="w")
+_add("lmul_naive.inplace", "lmul_naive", "lmul", "2", 2, 1, flags="w")
+_add("lmul_kara.inplacesq", "lsquare", "lsquare", "1", 2, 1, flags="w")
 _add("laddmul.alias laddmul.alias2", "laddmul", "laddmul", "3", 3, 1)
 _add("laddmul.rhl", "laddmul", "laddmul", "3", 3, 1)
 _add("laddmul.hl", "laddmul", "laddmul", "3", 2, 1)
